@@ -64,10 +64,14 @@ impl<A: AcceptableMasterList, C: Clock, F: Filter, R: Rng, S: PtpInstanceStateMu
                             return true;
                         }
 
-                        // Cannot panic as `list` is large enough to contain up to a whole message
+                        // A received frame can be larger than the frames we send
+                        // (e.g. 2048 byte receive buffers), so bound the copy by
+                        // the capacity of the list.
+                        let capacity = path_trace_ds.list.capacity();
                         path_trace_ds.list = tlv
                             .value
                             .chunks_exact(8)
+                            .take(capacity)
                             .map(|ci| ClockIdentity(<[u8; 8]>::try_from(ci).unwrap()))
                             .collect();
                     }
